@@ -1273,6 +1273,23 @@ class AsyncServerWorld(ServerWorld):
                 conn._s2c(('refuse', req.status or 500, b''))
 
     def _ws_wake_server(self, conn):
+        if self.app_opts.get('cancel_on_ws_loss') and \
+                not getattr(conn, 'cancelled', False) and \
+                not (conn.server_seen_close or conn.server_closed) and \
+                conn.server_inbox and conn.server_inbox[0][0] == 'close':
+            # the web framework learns that the connection is gone and
+            # cancels the task that serves it (aiohttp does; so do some ASGI
+            # servers): CancelledError is raised at whatever await the task
+            # is parked in, and further reads report the disconnect
+            w = conn.req.worker
+            if w is not None and not w.done():
+                conn.cancelled = True
+                self.fault('task_cancelled')
+                self.k.ev('ws.s.cancel', wid=conn.wid)
+                conn.server_seen_close = True
+                conn.server_inbox[:] = []
+                w.cancel()
+                return
         fut = getattr(conn, 'afut', None)
         if fut is not None and not fut.done() and conn.server_inbox and \
                 not (conn.server_seen_close or conn.server_closed):
